@@ -23,10 +23,22 @@ def _gen(chunk):
     return out, n
 
 
-def _jud(chunk):
+_WARMUP = ()
+
+
+def _jud(t):
+    tag, chunk, stop_at = t
+    scratch = _JUDGE(None, None)
+    for s in _WARMUP:          # the seeds are (re)judged first in every fresh process: a string is
+        _JUDGE(scratch, s)     # then always evaluated *after* the valid vectors it derives from
     acc = _JUDGE(None, None)
     for s in chunk:
         _JUDGE(acc, s)
+        if stop_at is not None and s == stop_at:
+            break
+    for c in acc.get("bad", []):
+        c.setdefault("task", list(tag))
+        c.setdefault("tier", core.CURRENT_TIER)
     return acc
 
 
@@ -36,18 +48,33 @@ def chunks(seq, n):
     return [seq[i:i + k] for i in range(0, len(seq), k)]
 
 
-def explore(ctx, seeds, neighbours, judge, depth, parts=64):
+def explore(ctx, seeds, neighbours, judge, depth, parts=64, tag="explore", only=None, stop_at=None):
     """neighbours(s, level) -> iterable of strings; judge(None, None) -> new accumulator,
-    judge(acc, s) records the verdict for s. Returns (accs, stats)."""
-    global _NEIGH, _JUDGE, _LEVEL
+    judge(acc, s) records the verdict for s. Returns (accs, stats).
+    Every chunk of new nodes is judged in a fresh fork (its verdicts are a function of the chunk
+    alone); cases carry task = [tag, level, chunk number, parts]. only=(level, chunk number) re-judges
+    just that chunk in this process up to stop_at (task replay)."""
+    global _NEIGH, _JUDGE, _LEVEL, _WARMUP
     _NEIGH, _JUDGE = neighbours, judge
+    _WARMUP = tuple(sorted(seeds))
+
+    def judge_level(level, frontier):
+        cs = chunks(frontier, parts)
+        if only is not None:
+            if only[0] != level:
+                return []
+            return [_jud(((tag, level, only[1], parts), cs[only[1]], stop_at))]
+        return core.pool_map(_jud, [((tag, level, i, parts), c, None) for i, c in enumerate(cs)], fresh=True)
+
     seen = set(seeds)
     frontier = sorted(seen)
-    accs = core.pool_map(_jud, chunks(frontier, parts))
+    accs = judge_level(0, frontier)
     stats = {"levels": [len(frontier)], "edges": 0}
     for level in range(depth):
         _LEVEL = level
-        gen = core.pool_map(_gen, chunks(ctx.rot(frontier), parts))
+        if only is not None and only[0] <= level:
+            break
+        gen = core.pool_map(_gen, chunks(frontier, parts))
         new = set()
         for s, n in gen:
             stats["edges"] += n
@@ -58,6 +85,6 @@ def explore(ctx, seeds, neighbours, judge, depth, parts=64):
         stats["levels"].append(len(frontier))
         if not frontier:
             break
-        accs += core.pool_map(_jud, chunks(frontier, parts))
+        accs += judge_level(level + 1, frontier)
     stats["nodes"] = len(seen)
     return accs, stats
